@@ -3,7 +3,7 @@
 stores <round dir>/<PROP>/out/{patch.diff,demo.py,notes.md,verify.txt} as seeded/<PROP>-<suffix>/ with meta.json"""
 import json, os, shutil, sys
 rd, prop, suf, init, det, summary, needs = sys.argv[1:8]
-ROUND = '8: told the ideas of rounds 1-7 and the kinds of mistake already used' if suf == 'h' else '7: told the ideas of rounds 1-6 and the kinds of mistake already used, asked for boundary / asymmetry / swapped-operand / wrong-key kinds'
+ROUND = '9 (eight properties, 25-minute budget): told the ideas of rounds 1-8 and the kinds of mistake already used' if suf == 'i' else '8: told the ideas of rounds 1-7 and the kinds of mistake already used' if suf == 'h' else '7: told the ideas of rounds 1-6 and the kinds of mistake already used, asked for boundary / asymmetry / swapped-operand / wrong-key kinds'
 strength = sys.argv[8] if len(sys.argv) > 8 else ''
 V = os.path.dirname(os.path.dirname(os.path.abspath(__file__)))
 src = os.path.join(rd, prop, 'out')
